@@ -3050,8 +3050,11 @@ pub fn eval_factor_symbol(
             return Ok(ir::Factor::Value(x));
         }
         SymbolKind::ModportVariableMember(x) => {
-            let variable = symbol_table::get(x.variable).unwrap();
-            if let SymbolKind::Variable(x) = &variable.kind {
+            // The member may name a variable the interface doesn't declare
+            // (already reported as an undefined identifier).
+            if let Some(variable) = symbol_table::get(x.variable)
+                && let SymbolKind::Variable(x) = &variable.kind
+            {
                 let r#type = x.r#type.to_ir_type(context, TypePosition::Variable)?;
                 let x = Comptime::from_type(r#type, x.clock_domain, token);
 
